@@ -38,6 +38,7 @@ type Engine struct {
 	droppedCand   map[string]map[string]bool
 	mutableGlobal map[*ssa.Global]bool
 	initStored    map[*ssa.Global]bool
+	initAlloc     map[*ssa.Global]bool
 	funcs         map[string]*ssa.Function
 	workDir       string
 	timeoutMs     int
@@ -209,6 +210,22 @@ func (e *Engine) findMutableGlobals() {
 		return nil
 	}
 	e.initStored = map[*ssa.Global]bool{}
+	e.initAlloc = map[*ssa.Global]bool{}
+	for _, p := range e.prog.AllPackages() {
+		if fn := p.Func("init"); fn != nil {
+			if _, ok := e.funcs[fn.String()]; !ok {
+				for _, b := range fn.Blocks {
+					for _, ins := range b.Instrs {
+						if t, ok := ins.(*ssa.Store); ok {
+							if g, ok := t.Addr.(*ssa.Global); ok {
+								e.initStored[g] = true
+							}
+						}
+					}
+				}
+			}
+		}
+	}
 	for _, fn := range e.funcs {
 		if fn.Name() == "init" || strings.HasPrefix(fn.Name(), "init#") {
 			for _, b := range fn.Blocks {
@@ -216,6 +233,9 @@ func (e *Engine) findMutableGlobals() {
 					if t, ok := ins.(*ssa.Store); ok {
 						if g, ok := t.Addr.(*ssa.Global); ok {
 							e.initStored[g] = true
+							if _, isAlloc := t.Val.(*ssa.Alloc); isAlloc {
+								e.initAlloc[g] = true
+							}
 						}
 					}
 				}
